@@ -171,6 +171,11 @@ impl SMw {
         let spec = w.scn().comp(self.comp);
         let neff = effects.as_ref().map(|e| e.len() as u32).unwrap_or(0);
         w.ctx.ev(Ev::MwIn { comp: self.comp, hook, act: a.id, st: *st, neff });
+        if hook == Hook::BeforeReduce {
+            if let Some(g) = spec.gate {
+                w.ctx.gate(g).pass();
+            }
+        }
         if let Some(effects) = effects {
             let rm = sc.removed_by(self.comp);
             if !rm.is_empty() {
@@ -601,7 +606,13 @@ pub fn run_case(scn: Arc<Scenario>, log: Arc<std::sync::Mutex<LogInner>>) {
                 }
                 w.ctx.ev(Ev::Built { store: ix as u32, ok: true });
             }
-            Err(_) => w.ctx.ev(Ev::Built { store: ix as u32, ok: false }),
+            Err(_) => {
+                w.ctx.ev(Ev::Built { store: ix as u32, ok: false });
+                // nothing will ever pass a gate of a store that does not exist
+                for g in &w.ctx.gates {
+                    g.open();
+                }
+            }
         }
     }
     for (i, op) in scn.prelude.iter().enumerate() {
